@@ -59,8 +59,32 @@ class Joined(Opaque):
         self.parts = parts
 
 
+class HexText:
+    """'0x%x' % v for a non-negative integer v: the text Python's int(text, 16) reads back as v"""
+    py_types = ('str',)
+
+    def __init__(self, value):
+        self.value = value
+
+    def clone_model(self):
+        return HexText(self.value)
+
+    def to_int(self, eng, base):
+        if base in (16, 0):
+            return self.value
+        from ..engine import PyRaise
+        raise PyRaise('ValueError')          # '0x..' is not a literal of any other base
+
+
 def percent_format(eng, fmt, value, e):
     """'<fmt>' % value for the formats the anchored functions use."""
+    if fmt == '0x%x' and not isinstance(value, (tuple, str)):
+        v = eng.num(value, e)
+        if isinstance(v, int) and not isinstance(v, bool):
+            return fmt % v
+        # a negative value would print as '0x-..', which no int() reads back
+        eng.oblige('safety', 'format.%x.nonneg', zint(v) >= 0)
+        return HexText(zint(v))
     if fmt == '%03d':
         v = zint(eng.num(value, e))
         # three digits for 0..999, four for 1000..9999: the model decides which (both are real behaviours)
